@@ -19,6 +19,7 @@
 import RoProofs.Ops.CtxSpecs
 import RoModel.FactPreds
 import RoGen.Catalogue
+import RoProofs.TimedDelayCtx
 namespace Ro.C09
 open Ro Ro.Facts
 
@@ -37,12 +38,34 @@ theorem odd_rows_listed :
 theorem no_nil_no_unknown :
     (RoGen.Catalogue.table.all fun r => r.ctxRows.all fun c => c.prov != .nilCtx && c.prov != .unknown && c.prov != .background) = true := by decide
 
+/-! ### time-driven operators: Delay (the queue holds (context, notification) pairs — RoProofs/TimedDelayCtx.lean) -/
+
+/-- whatever the timers do (any number, any firing order, early ones finding the queue empty), every (context,
+    notification) pair Delay delivers is a pair its source sent: no notification travels with another one's context -/
+theorem delay_keeps_context {K ν : Type} (emits : List (Nat × (K × ν))) (fires : List (Nat × Nat))
+    (p : Nat × (K × ν)) (hp : p ∈ Ro.Timed.delayPopsG emits fires 0) : p.2 ∈ emits.map (·.2) :=
+  Ro.Timed.delay_keeps_context emits fires p hp
+
+/-- … in order: the k-th delivery is the k-th emission, context included -/
+theorem delay_kth {γ : Type} (emits : List (Nat × γ)) (fires : List (Nat × Nat)) (k : Nat) (p : Nat × γ)
+    (hk : (Ro.Timed.delayPopsG emits fires 0)[k]? = some p) : ∃ e, emits[k]? = some e ∧ e.2 = p.2 :=
+  Ro.Timed.delay_kth emits fires k p hk
+
+/-- the timed model the C16 theorems are about is the instance "payload = notification" of the same pop sequence -/
+theorem delay_model_is_instance (emits : List (Nat × Ro.Timed.TN)) (fires : List (Nat × Nat)) :
+    Ro.Timed.delayPops emits fires 0 = (Ro.Timed.delayPopsG emits fires 0).map (fun p => Ro.Timed.Ev.at p.1 p.2) :=
+  Ro.Timed.delayPops_eq emits fires 0
+
 end Ro.C09
 
 #print axioms Ro.C09.certified_machine
 #print axioms Ro.C09.table_ok
 #print axioms Ro.C09.odd_rows_listed
 #print axioms Ro.C09.no_nil_no_unknown
+#print axioms Ro.C09.delay_keeps_context
+#print axioms Ro.C09.delay_kth
+#print axioms Ro.C09.delay_model_is_instance
+#print axioms Ro.Timed.timerCtx_witness
 #print axioms Ro.CtxSafe.run
 #print axioms Ro.all_ctx
 #print axioms Ro.bufferCount_ctx
